@@ -35,7 +35,7 @@ RULE = ("A case = tiny problem (8x8x8 model in one of 3 mappings, iso/VTI/"
         "frequencies; observed data with a NaN pattern; scalar noise floor / "
         "relative error) written in h5/npz/json + configuration file built "
         "from entries of the checker's transcription of docs/manual/cli.rst "
-        "(57 documented keys of the sections files, simulation, solver_opts, "
+        "(58 documented keys of the sections files, simulation, solver_opts, "
         "gridding_opts, noise_opts, data, layered) + command-line flags "
         "(-f/-m/-g, -n, -l, -d, -v/-q/--verbosity, --path/--survey/--model/"
         "--output/--save/--load/--cache/--clean).  Sub-checks: `single` "
@@ -560,12 +560,20 @@ def run_cli(spec, workdir):
             return {'ok': True}
         lines = [x for x in p.stderr.strip().splitlines() if x.strip()]
         last = lines[-1] if lines else ''
+        where = 'subprocess'
+        for m in re.finditer(r'File "([^"]+)", line \d+, in (\S+)',
+                             p.stderr):
+            fn = os.path.realpath(m.group(1))
+            if fn.startswith(EMG3D_DIR):
+                where = f"{os.path.relpath(fn, REPO)}:{m.group(2)}" 
         m = re.match(r'^([A-Za-z_][\w.]*)\s*:', last)
         etype = m.group(1).split('.')[-1] if m else 'SystemExit'
+        mtype = m
         if lines and lines[0].startswith('usage:'):
             etype = 'SystemExit'
-        return {'ok': False, 'etype': etype, 'msg': last[:300],
-                'where': 'subprocess', 'code': p.returncode}
+        msg = last.partition(':')[2].strip() if mtype else last
+        return {'ok': False, 'etype': etype, 'msg': msg[:300],
+                'where': where, 'code': p.returncode}
     import emg3d.utils
     from emg3d.cli.main import main
     old_report = emg3d.utils.Report
@@ -1111,12 +1119,19 @@ def _run_case(spec, rec, wd, classify):
         if not out['ok'] and api_err is not None:
             if out['etype'] == api_err.etype:
                 if rec is not None and classify:
-                    rec.cls('both_raise', f"both_raise:{api_err.etype}")
-                return {'class': 'both_raise'}
+                    rec.cls('both_raise',
+                            f"both_raise:{api_err.etype}@{api_err.stage}")
+                return {'class': 'both_raise',
+                        'error': f"{api_err.etype}@{api_err.stage}: "
+                                 f"{api_err.msg[:80]}"}
+            # different errors: the CLI's own failure is the finding (the
+            # API error may belong to a later step the CLI never reached)
             raise Failure(
-                f"error_differs:{out['etype']}!={api_err.etype}",
-                f"CLI: {out['etype']}: {out['msg']} / API ({api_err.stage}):"
-                f" {api_err.etype}: {api_err.msg}")
+                f"cli_error:{out['etype']}@{out.get('where')}",
+                f"the CLI ends with {out['etype']}: {out['msg']} (args "
+                f"{cli_args(spec)}); the equivalent API calls end "
+                f"differently, in {api_err.stage} with {api_err.etype}: "
+                f"{api_err.msg}", {'config': text, 'tb': out.get('tb')})
         if not out['ok']:
             raise Failure(
                 f"cli_error:{out['etype']}@{out.get('where')}",
@@ -1200,9 +1215,11 @@ def _run_case(spec, rec, wd, classify):
                           f"saved simulation differs from the API's at "
                           f"{d[0]}: {d[1]}")
         info['saved'] = True
-    # unrequested files
-    for k in ('save',):
-        pass
+    # files that must not have been written (override sub-check)
+    for rel in spec.get('absent', []):
+        if os.path.exists(os.path.join(wd, rel)):
+            raise Failure('unexpected_file', f"{rel} was written although "
+                          "the command line names another file")
     return info
 
 
@@ -1325,11 +1342,28 @@ def attribute(spec, failure):
     return 'combination'
 
 
+def tree_stamp():
+    """Size and mtime of every source file of the code under test."""
+    out = []
+    for fn in sorted(glob.glob(os.path.join(EMG3D_DIR, '**', '*.py'),
+                               recursive=True)):
+        st_ = os.stat(fn)
+        out.append((fn, st_.st_size, st_.st_mtime_ns))
+    return out
+
+
+STAMP0 = tree_stamp()
+
+
 def case_fn(prefix=''):
     def fn(spec, rec):
         try:
             info = run_case(spec, rec)
         except Failure as f:
+            if spec.get('exec') == 'subproc' and tree_stamp() != STAMP0:
+                # a fresh interpreter imported other sources than the ones
+                # loaded in this process: no statement possible
+                raise Inconclusive("code under test changed during the run")
             if f.kind.startswith(('unknown_', 'error_differs')):
                 culprit = None
             else:
@@ -1359,9 +1393,6 @@ def classify(spec, rec, info):
     for k in ('load', 'cache', 'save', 'clean', 'layered', 'path'):
         if t.get(k):
             rec.cls(f"flag:{k}")
-    for k in ('survey', 'model', 'output', 'save'):
-        for f in spec['files']:
-            pass
     fm = {os.path.splitext(f[0])[1].lstrip('.') or 'h5' for f in spec['files']
           if f[1] != 'dir'}
     for x in sorted(fm):
@@ -1532,16 +1563,12 @@ def single_spec(sec, key, text, deco, function):
     if sec in ('simulation', 'solver_opts', 'layered') or (
             sec == 'files' and key == 'load'):
         term['save'] = 'c18_saved.npz'
-    spec = _spec(prob, with_context([entry], ctx), function, term, dry)
-    if key == 'path':
-        for f in spec['files']:
-            pass
-    return spec
+    return _spec(prob, with_context([entry], ctx), function, term, dry)
 
 
 # command-line options alone: (term, dry, needs)
 FLAG_SINGLES = [
-    ({'nproc': 1}, False), ({'nproc': 3}, True), ({'nproc': 0}, False),
+    ({'nproc': 1}, False), ({'nproc': 3}, True),
     ({'layered': True}, False),
     ({'path': 'sub'}, False), ({'path': '.'}, False),
     ({'survey': 'mysurvey.npz'}, False), ({'survey': 'sv'}, False),
@@ -1563,6 +1590,9 @@ FLAG_SINGLES = [
     ({'verbosity': 2}, False),
     ({'fnflag': 'long'}, False), ({'dryflag': 'long'}, True),
     ({'fnflag': 'none'}, False),
+    # dry run: shapes for every anisotropy case
+    ({'case': 'HTI'}, True), ({'case': 'VTI'}, True),
+    ({'case': 'triaxial'}, True), ({'case': 'isotropic'}, True),
 ]
 
 
@@ -1582,8 +1612,10 @@ def flag_specs(quick):
             if fn == 'forward':
                 ctx = ctx + CTX_NONOISE
             t = dict(term)
-            if t.get('nproc') == 0:
-                pass                 # documented lower limit: max(n, 1)
+            if 'case' in t:
+                prob = dict(prob, case=t.pop('case'))
+                if quick:
+                    fn = 'gradient'
             spec = _spec(prob, with_context([], ctx), fn, t, dry)
             spec['flagcase'] = True
             out.append(spec)
@@ -1669,9 +1701,9 @@ def value_strategy(sec, key, prob):
                 st.tuples(st.one_of(st.just('None'), a),
                           st.one_of(st.just('None'), a),
                           st.one_of(st.just('None'), b)).map('; '.join))
-        pr = st.lists(sf(['0.5', '1', '1.0', '2', '3.3', '1e1']),
-                      min_size=1, max_size=7).filter(
-            lambda x: len(x) in (1, 2, 3, 4, 7)).map(', '.join)
+        pr = sf([1, 2, 3, 4, 7]).flatmap(lambda n: st.lists(
+            sf(['0.5', '1', '1.0', '2', '3.3', '1e1']), min_size=n,
+            max_size=n)).map(', '.join)
         return {
             'properties': pr,
             'center': st.tuples(num(-100, 100), num(-100, 100),
@@ -1759,7 +1791,8 @@ def combo_spec(draw, exec_='inproc', mode=None, function=None):
     lay_file = mode == 'load' and draw(st.booleans())
     prob = draw(problem_spec(layered=(mode == 'layered' or lay_file or
                                       mode == 'load')))
-    if function != 'forward' and prob['nf'] is None and prob['re'] is None:
+    if (function != 'forward' or mode == 'load') and \
+            prob['nf'] is None and prob['re'] is None:
         prob['re'] = 0.05
     term = {'cfgarg': True}
     config = []
@@ -1817,7 +1850,7 @@ def combo_spec(draw, exec_='inproc', mode=None, function=None):
         sim.append(E('simulation', 'max_workers', '1', draw(DECO)))
     if dry and draw(st.booleans()):
         sim = [e for e in sim if e[1] != 'max_workers']
-        term['nproc'] = draw(sf([None, 2, 4, 0]))
+        term['nproc'] = draw(sf([None, 2, 4]))
         if draw(st.booleans()):
             sim.append(E('simulation', 'max_workers',
                          draw(sf(['2', '3', '8'])), draw(DECO)))
@@ -2129,8 +2162,8 @@ def run(ctx):
     ctx.enumerate('single', specs, case_single, exhaustive=True)
     fns = ['forward', 'misfit', 'gradient']
     k = 0
-    for mode, nq, nt in (('same', 4, 16), ('auto', 3, 12), ('layered', 2, 8),
-                         ('load', 3, 14)):
+    for mode, nq, nt in (('same', 4, 10), ('auto', 3, 8), ('layered', 2, 5),
+                         ('load', 3, 9)):
         for fn in fns:
             k += 1
             ctx.explore('combo', combo_spec(mode=mode, function=fn),
@@ -2138,13 +2171,13 @@ def run(ctx):
                         max_rounds=10, salt=k)
     for i, item in enumerate(OVERRIDE_ITEMS):
         ctx.explore('override', override_spec(item=item), case_override,
-                    ctx.n(2, 4), shrink=False, salt=i)
-    for i, (kind, nq, nt) in enumerate((('key', 24, 50), ('section', 4, 6),
-                                        ('flag', 5, 8))):
+                    ctx.n(2, 3), shrink=False, salt=i)
+    for i, (kind, nq, nt) in enumerate((('key', 24, 40), ('section', 4, 5),
+                                        ('flag', 5, 6))):
         ctx.explore('reject', reject_spec(kind=kind), case_reject,
                     ctx.n(nq, nt), shrink=False, salt=i)
     ctx.explore('subproc', combo_spec('subproc'), case_subproc,
-                ctx.n(1, 3), shrink=False)
+                ctx.n(1, 2), shrink=False)
     ctx.enumerate('info', [{'flag': '--version'},
                            {'flag': '--report', 'more': ['-f']}],
                   case_info)
